@@ -82,6 +82,21 @@ def generate(seed, tier):
     n_ops = st.ops.randint(6, 20 if tier == "quick" else 40)
     ops = scen.history_ops(st, prog, g, n_parties, n_ops,
                            mix={"randomize": 50, "rw": 20, "assign": 25, "seed": 5})
+    rfa = [f for f in k0["fields"] if f["k"] == "s" and f.get("r")]
+    if rfa and rng.random() < 0.4:
+        # a dynamic block referenced below a condition of an inline block: what it says about a
+        # field's range only holds where the condition does
+        own_ = progs.fields_with_paths(k0)[0]
+        k0["blocks"].append({"n": "dz", "dyn": True, "stmts": progs.strip(
+            [progs.simple_stmt(rng, [f_ for f_ in own_ if f_.get("r")] or own_) for _ in range(rng.randint(1, 2))])})
+        gi = progs.Gen(st.ops, cfg)
+        for o in ops:
+            if o["op"] == "rw" and st.ops.random() < 0.7:
+                cond = gi.bool_expr(own_, 1)
+                ref = progs.EXPR({"t": "dynref", "n": "dz", "p": []})
+                o["inline"] = list(o.get("inline") or []) + [progs.strip(
+                    {"t": "if", "c": cond, "then": [ref], "elifs": [], "else": None}
+                    if st.ops.random() < 0.5 else {"t": "implies", "c": cond, "body": [ref]})]
     return {"prop": ID, "seed": seed, "prog": prog, "ops": ops,
             "probe_seed": st.fault.randint(0, 1 << 30)}
 
@@ -170,7 +185,7 @@ def execute(rec):
             captured.pop("bounds", None)
             out = w.apply(op)
             obs.append((oi, kind, out["st"], w.tree(op["p"]) if "p" in op and kind in ("randomize", "rw") else None))
-            if kind != "randomize" or out["st"] not in ("ok", "solvefail") or "bounds" not in captured:
+            if kind not in ("randomize", "rw") or out["st"] not in ("ok", "solvefail") or "bounds" not in captured:
                 continue
             if prng.random() > 0.5:
                 continue
@@ -198,7 +213,8 @@ def execute(rec):
                     nontrivial = True
                 for v in outside:
                     stats["feasible_probes"] += 1
-                    if w.probe(p, [(q, v)]):
+                    # (feasible = some solution of the class blocks plus this call's inline block)
+                    if w.probe(p, [(q, v)], extra_inline=op.get("inline") if kind == "rw" else None):
                         feats = features(rec["prog"], q)
                         viol.append({"inv": "C14.range_excludes_feasible",
                                      "cls": "C14.range_excludes_feasible/" + "+".join(feats),
